@@ -60,6 +60,7 @@ type Step struct {
 	ID   string `json:"id"`   // eng: operation id
 	K    int    `json:"k"`    // in: index of the message (incarnation of the operation a subscribe creates); eng: incarnation
 	What string `json:"what"` // eng: data | fin | error | result
+	Frag int    `json:"frag"` // conn mode: send the message as 2 or 3 fragments (+10: a WebSocket ping control frame between them)
 	Hold int    `json:"hold"` // eng: 1 = the transport takes the terminal message of this event but does not return from the write call until "release"
 }
 
@@ -123,6 +124,11 @@ type world struct {
 	broken     bool
 	brokenIter int
 	quietConnErr int // connection_error messages not logged (beyond the logged iterations of a broken transport)
+
+	// slow InitFunc: the handler sits in the InitFunc until the schedule lets it return
+	inInit   bool
+	initGo   bool
+	kaCount  int // keep-alive (`ka`) / heartbeat (`pong` with the heartbeat payload) messages seen so far
 
 	// mode "v2": data messages of the real executor carry no harness marker; the wrapper executor announces
 	// (incarnation, number) of the data message the engine is about to write for an id
@@ -214,7 +220,10 @@ func (w *world) outEvent(b []byte) Event {
 	case "pong":
 		if string(m.Payload) == websocket.GraphQLTransportWSHeartbeatPayload {
 			e.Code = 1
+			w.kaCount++
 		}
+	case "ka":
+		w.kaCount++
 	}
 	return e
 }
@@ -407,7 +416,7 @@ func (c *fakeConn) Read(p []byte) (int, error) {
 		ev := w.inboxEv[0]
 		w.log(ev)
 		w.inboxEv = w.inboxEv[1:]
-		if ev.A == "readerr" {
+		if ev.A == "readerr" && len(c.rbuf) == 0 {
 			c.rbuf = nil
 			return 0, errTransport
 		}
@@ -857,6 +866,10 @@ func wireOf(proto string, s Step) ([]byte, bool) {
 			return []byte(`{"type":"connection_init","payload":{"Authorization":"x"}}`), false
 		}
 		return []byte(`{"type":"connection_init"}`), false
+	case "initslow": // the harness InitFunc does not return before the schedule says so
+		return []byte(`{"type":"connection_init","payload":{"slow":"yes"}}`), false
+	case "terminate":
+		return []byte(`{"type":"connection_terminate"}`), false
 	case "initrej": // the harness InitFunc refuses this payload: v even -> it returns (nil, err), v odd -> (ctx, err)
 		if s.V%2 == 1 {
 			return []byte(`{"type":"connection_init","payload":{"reject":"ctx"}}`), false
@@ -938,16 +951,66 @@ func wireOf(proto string, s Step) ([]byte, bool) {
 	panic("harness: unknown client symbol " + s.Sym)
 }
 
-func clientFrame(msg []byte, binary bool) []byte {
+func clientFrame(msg []byte, binary bool, frag int) []byte {
 	var b bytes.Buffer
 	op := ws.OpText
 	if binary {
 		op = ws.OpBinary
 	}
-	if err := wsutil.WriteClientMessage(&b, op, msg); err != nil {
-		panic(err)
+	n := frag % 10
+	if n < 2 || len(msg) < n {
+		if err := wsutil.WriteClientMessage(&b, op, msg); err != nil {
+			panic(err)
+		}
+		return b.Bytes()
+	}
+	// a fragmented message: first frame carries the opcode, the others are continuations, only the last has FIN
+	put := func(f ws.Frame) {
+		f = ws.MaskFrameInPlaceWith(f, [4]byte{0x12, 0x34, 0x56, 0x78})
+		if err := ws.WriteFrame(&b, f); err != nil {
+			panic(err)
+		}
+	}
+	size := (len(msg) + n - 1) / n
+	for i := 0; i < n; i++ {
+		lo, hi := i*size, (i+1)*size
+		if hi > len(msg) {
+			hi = len(msg)
+		}
+		part := append([]byte(nil), msg[lo:hi]...)
+		o := ws.OpContinuation
+		if i == 0 {
+			o = op
+		}
+		put(ws.NewFrame(o, i == n-1, part))
+		if i == 0 && frag >= 10 {
+			put(ws.NewPingFrame([]byte("hb"))) // control frames may be interleaved with the fragments of a message
+		}
 	}
 	return b.Bytes()
+}
+
+// corruptFrame returns the bytes of a client frame that violates RFC 6455 but leaves the stream aligned on a frame
+// boundary (the real codec reports a read error and the next frame can be read normally).
+func corruptFrame(v int) []byte {
+	mask := []byte{0x12, 0x34, 0x56, 0x78}
+	switch v % 7 {
+	case 1: // RSV1 set on an empty masked text frame
+		return append([]byte{0x80 | 0x40 | 0x1, 0x80}, mask...)
+	case 2: // unmasked client frame
+		return []byte{0x80 | 0x1, 0x00}
+	case 3: // reserved opcode 0x3
+		return append([]byte{0x80 | 0x3, 0x80}, mask...)
+	case 4: // fragmented (non-final) control frame
+		return append([]byte{0x9, 0x80}, mask...)
+	case 5: // text frame with invalid UTF-8
+		var b bytes.Buffer
+		_ = wsutil.WriteClientMessage(&b, ws.OpText, []byte{0xff, 0xfe, 0xfd})
+		return b.Bytes()
+	case 6: // continuation frame although no message is in progress
+		return append([]byte{0x80 | 0x0, 0x80}, mask...)
+	}
+	return nil // 0: the transport itself fails the read
 }
 
 // ---------------------------------------------------------------------------------------------- driver
@@ -993,6 +1056,16 @@ func runCase(c Case) ([]Event, Result) {
 	}
 	// an InitFunc is always configured; it is consulted for every connection_init that carries a payload
 	opts.WebSocketInitFunc = func(ctx context.Context, p websocket.InitPayload) (context.Context, error) {
+		if p.GetString("slow") != "" {
+			w.mu.Lock()
+			w.inInit = true
+			w.cond.Broadcast()
+			for !w.initGo && !w.drained {
+				w.cond.Wait()
+			}
+			w.inInit, w.initGo = false, false
+			w.mu.Unlock()
+		}
 		switch p.GetString("reject") {
 		case "nil":
 			return nil, errors.New("verif: init refused")
@@ -1000,6 +1073,9 @@ func runCase(c Case) ([]Event, Result) {
 			return ctx, errors.New("verif: init refused")
 		}
 		return context.WithValue(ctx, initKey{}, p.Authorization()), nil
+	}
+	if hasStep(c, "tick", "") {
+		opts.CustomKeepAliveInterval = 3 * time.Millisecond // graphql-ws `ka` and the graphql-transport-ws heartbeat
 	}
 	if c.Proto == "gws" && hasStep(c, "in", "initrej") {
 		// a refused init must not start the keep-alive: make a stray `ka` observable
@@ -1057,15 +1133,19 @@ func runCase(c Case) ([]Event, Result) {
 			return false
 		}
 		msg, bin := wireOf(c.Proto, s)
-		if c.Mode == "conn" && s.Sym != "readerr" {
-			msg = clientFrame(msg, bin)
+		if c.Mode == "conn" {
+			if s.Sym == "readerr" {
+				msg = corruptFrame(s.V)
+			} else {
+				msg = clientFrame(msg, bin, s.Frag)
+			}
 		}
 		rd := w.rdCount
 		w.inbox = append(w.inbox, msg)
 		w.inboxEv = append(w.inboxEv, Event{Ev: "in", A: s.Sym, K: s.K, N: s.V})
 		w.cond.Broadcast()
 		w.mu.Unlock()
-		if !w.waitFor(stepWait, func() bool { return (w.rdCount > rd && w.atRead) || w.exited }) {
+		if !w.waitFor(stepWait, func() bool { return (w.rdCount > rd && w.atRead) || w.exited || (s.Sym == "initslow" && w.inInit) }) {
 			res.Wedged = append(res.Wedged, "in:"+s.Sym)
 			w.mu.Lock()
 			w.log(Event{Ev: "wedge", A: "in"})
@@ -1119,6 +1199,34 @@ func runCase(c Case) ([]Event, Result) {
 			if ok && s.Sym == "initrej" && c.Proto == "gws" {
 				time.Sleep(15 * time.Millisecond) // several keep-alive intervals
 			}
+		case "initgo":
+			w.mu.Lock()
+			ok = w.inInit
+			rd := w.rdCount
+			if ok {
+				w.log(Event{Ev: "initgo"})
+				w.initGo = true
+				w.cond.Broadcast()
+			}
+			w.mu.Unlock()
+			if ok && !w.waitFor(stepWait, func() bool { return (w.rdCount > rd && w.atRead) || w.exited }) {
+				res.Wedged = append(res.Wedged, "initgo")
+				w.mu.Lock()
+				w.log(Event{Ev: "wedge", A: "initgo"})
+				w.mu.Unlock()
+			}
+		case "tick":
+			// observational: whatever the timers write within some intervals is recorded (and judged by the acceptor)
+			w.mu.Lock()
+			ok = !w.closed && !w.exited
+			n := w.kaCount
+			w.mu.Unlock()
+			if ok {
+				w.waitFor(25*time.Millisecond, func() bool { return w.kaCount >= n+2 || w.closed })
+				w.mu.Lock()
+				w.log(Event{Ev: "tick", N: w.kaCount - n})
+				w.mu.Unlock()
+			}
 		case "broken":
 			w.mu.Lock()
 			ok = !w.closed && !w.exited && w.atRead
@@ -1160,6 +1268,16 @@ func runCase(c Case) ([]Event, Result) {
 				break
 			}
 			ok = true
+			if w.waitFor(stepWait, func() bool { return w.closed }) {
+				// the init timeout has closed the connection; a handler that still sits in a slow InitFunc gets it back now
+				w.mu.Lock()
+				if w.inInit {
+					w.log(Event{Ev: "initgo"})
+					w.initGo = true
+					w.cond.Broadcast()
+				}
+				w.mu.Unlock()
+			}
 			if !w.waitFor(stepWait, func() bool { return w.closed && w.exited }) {
 				res.Wedged = append(res.Wedged, "timeout")
 				w.mu.Lock()
@@ -1174,6 +1292,9 @@ func runCase(c Case) ([]Event, Result) {
 
 	// liveness probe: an open connection must still react
 	w.mu.Lock()
+	if w.inInit {
+		w.initGo = true
+	}
 	w.held, w.holdArmed = false, false
 	w.cond.Broadcast()
 	open := !w.closed && !w.exited && len(res.Wedged) == 0
